@@ -29,6 +29,7 @@ func newFileContext(name string) *fileContext {
 }
 
 func (fb *fileContext) File() *descriptorpb.FileDescriptorProto {
+	fb.qualifyCapturedTypeNames()
 	last := int32(1)
 	for _, comment := range fb.commentSet {
 		last += 2
@@ -112,4 +113,69 @@ func (msg *MessageBuilder) addMessage(message *MessageBuilder) {
 func (msg *MessageBuilder) addEnum(enum *enumBuilder) {
 	msg.commentSet.mergeAt([]int32{4, int32(len(msg.descriptor.EnumType))}, enum.commentSet)
 	msg.descriptor.EnumType = append(msg.descriptor.EnumType, enum.desc)
+}
+
+// qualifyCapturedTypeNames rewrites relative type names which protobuf's
+// scoping rules would bind to something else than the type they were written
+// for. Inline types are named relative to the package ('Foo.Bar'); a message
+// nested somewhere around the referring field which is itself called 'Foo'
+// captures the lookup of the first component, so the name either fails to
+// resolve or, worse, silently resolves to another type. Such names are
+// written in full.
+func (fb *fileContext) qualifyCapturedTypeNames() {
+	pkg := fb.fdp.GetPackage()
+	defined := map[string]struct{}{}
+	var collect func(prefix string, msg *descriptorpb.DescriptorProto)
+	collect = func(prefix string, msg *descriptorpb.DescriptorProto) {
+		name := prefix + "." + msg.GetName()
+		defined[name] = struct{}{}
+		for _, enum := range msg.EnumType {
+			defined[name+"."+enum.GetName()] = struct{}{}
+		}
+		for _, nested := range msg.NestedType {
+			collect(name, nested)
+		}
+	}
+	for _, msg := range fb.fdp.MessageType {
+		collect(pkg, msg)
+	}
+	for _, enum := range fb.fdp.EnumType {
+		defined[pkg+"."+enum.GetName()] = struct{}{}
+	}
+
+	var walk func(scope string, msg *descriptorpb.DescriptorProto)
+	walk = func(scope string, msg *descriptorpb.DescriptorProto) {
+		scope = scope + "." + msg.GetName()
+		for _, field := range msg.Field {
+			name := field.GetTypeName()
+			if name == "" || strings.HasPrefix(name, ".") {
+				continue
+			}
+			intended := pkg + "." + name
+			if _, ok := defined[intended]; !ok {
+				continue // not a type of this file, leave it to the linker
+			}
+			first, _, _ := strings.Cut(name, ".")
+			// innermost scope first, as the protobuf linker does
+			for at := scope; ; {
+				if _, ok := defined[at+"."+first]; ok {
+					if at != pkg {
+						field.TypeName = gl.Ptr("." + intended)
+					}
+					break
+				}
+				idx := strings.LastIndex(at, ".")
+				if at == pkg || idx < 0 {
+					break
+				}
+				at = at[:idx]
+			}
+		}
+		for _, nested := range msg.NestedType {
+			walk(scope, nested)
+		}
+	}
+	for _, msg := range fb.fdp.MessageType {
+		walk(pkg, msg)
+	}
 }
